@@ -45,7 +45,7 @@ for p in props:
             "design_ref": f"DESIGN.md section 5, {pid}",
         },
         "level_note": m["note"],
-        "technique": m.get("technique", "deterministic simulation with fault injection: seeded search over schedules and fault sequences, invariant monitors and history checks, minimised replay files"),
+        "technique": m.get("technique", "deterministic simulation with fault injection: every fault point of the simulated run (crash prefix / stream cut offset and chunking / flipped bit position / delivered cookie length) enumerated completely over seeded scenario families of the real code, invariant monitors, replay files" if m.get("level") == "fault_enumeration" else "deterministic simulation with fault injection: seeded search over schedules and fault sequences, invariant monitors and history checks against small reference models, minimised replay files"),
     })
 engines = {}
 for pid, (crate, binname, world) in built.items():
